@@ -23,6 +23,10 @@ def sh(cmd, cwd=None, env=None, timeout=7200):
     except subprocess.TimeoutExpired:
         return 124, "TIMEOUT"
 
+# A repair whose defect a *later* repair also shuts out: undoing it alone cannot bring the
+# violation back, so the later one is undone with it (noted in the summary).
+MASKED_BY = {"469635b": ["7490960"]}
+
 def main():
     only = None
     a = sys.argv[1:]
@@ -57,7 +61,10 @@ def main():
         rc, subj = sh(f"git -C /repo log -1 --format=%s {c}")
         r = {"commit": c, "subject": subj.strip(), "at_repo_head": head, "properties": e["props"], "recorded_signatures": sorted(set(e["signatures"])), "checks": {}}
         sh("git revert --abort; git checkout -q -- . ; git clean -fdq", cwd=wt)
-        rc, o = sh(f"git revert --no-commit {c}", cwd=wt)
+        also = MASKED_BY.get(c, [])
+        if also:
+            r["also_reverted"] = also
+        rc, o = sh(f"git revert --no-commit {' '.join(also + [c])}", cwd=wt)
         manual = f"/verif/fixrevert/manual/{c}.diff"
         if rc != 0 and not os.path.exists(manual):
             r["reverts_cleanly"] = False
@@ -126,6 +133,8 @@ def main():
                         m = re.search(r"signature=(\S+)", " ".join(v["lines"]))
                         sigs.append(f"{p} {tier} (`{m.group(1) if m else '?'}`)")
             out = "; ".join(sigs) + (" — `git revert` conflicts with later repairs; undone by hand (`fixrevert/manual/`)" if r.get("manual") else "")
+            if r.get("also_reverted"):
+                out += f" — undone together with {', '.join('`' + a + '`' for a in r['also_reverted'])}, which shuts the same defect out a second way (alone, this revert changes nothing the property can see)"
         else:
             out = "**not re-detected** " + "; ".join(f"{p} {t}: exit {v['exit']}" for p, pr in r["checks"].items() for t, v in pr.items())
         rows.append(f"| `{c}` | {r['subject'].replace('|', '/')} | {', '.join(r['properties'])} | {out} |")
